@@ -202,6 +202,8 @@ func tdWorld() *world.World {
 			"Item_1": {Type: "Item", F: map[string]world.Val{"id": world.S("Item_1"), "name": world.S("one"), "price": world.S(11)}},
 			"Item_2": {Type: "Item", F: map[string]world.Val{"id": world.S("Item_2"), "name": world.S("two"), "price": world.S(22)}},
 			"Item_3": {Type: "Item", F: map[string]world.Val{"id": world.S("Item_3"), "name": world.S("three"), "price": world.S(33)}},
+			// an event bigger than any buffer a writer might put in front of the connection
+			"Item_big": {Type: "Item", F: map[string]world.Val{"id": world.S("Item_big"), "name": world.S(strings.Repeat("0123456789", 900)), "price": world.S(44)}},
 		},
 		Roots: map[string]map[string]world.Val{
 			"Query":        {"first": world.R("Item_1"), "count": world.S(3)},
@@ -342,6 +344,12 @@ func (r *tdRunner) run(tc *tdCase) (res tdResult) {
 				if !passMsg() {
 					return dev("step %d %v: the handler did not read the message; parked %v", i, st.Act, parkedList(s))
 				}
+			case "Race":
+				// Listen's select has two ready cases (closeCh closed, the reader sending): which one it takes cannot be
+				// forced.  Both goroutines are let go, then everything runs freely; only the end state is judged.
+				s.Release("se.listen.select", gateOfPC["R"][strAt(st.Act, 1)])
+				res.Steps = i + 1
+				return ""
 			case "RStartFail":
 				s.Release("sub.reader.start")
 			case "HExit":
